@@ -167,7 +167,8 @@ CHECKS.update({
         text="Vars.tla states what each Euler boundary condition must satisfy (imposed totals, pressure, copied quantities, direction, "
              "Rankine-Hugoniot relations, wall reversal) and TLC checks them exactly on returned states that are small rationals "
              "(gamma 3/2, 2) and, at model level, that they reduce to the interior state for matching parameters; random states over "
-             "six decades, every condition, dir = -1/+1, euler2d on all sides with the insup angle, shallow water, dirichlet.",
+             "six decades, every condition, dir = -1/+1, euler2d on all sides with the insup angle, shallow water, dirichlet. "
+             "Apa_RH.tla proves the Rankine-Hugoniot relations of 'outsub_rh' for every state, pressure and gamma (Apalache, symbolic).",
         ref="DESIGN.md section 6 C16"),
     "C17": dict(
         technique="TLA+ model checking of variable definitions and ideal-gas identities in exact rationals (TLC) + TLC-judged values of "
